@@ -738,3 +738,16 @@ func vSerialised(doc *etree.Document) string {
 	s, _ := doc.WriteToString()
 	return s
 }
+
+func vDebugErr(label string, err error) {
+	if err != nil {
+		vx.notes = append(vx.notes, label+": "+err.Error())
+	}
+}
+
+// vIDString: an xs:ID value. The solver's string is mapped injectively to a valid NCName so that
+// equalities between IDs are preserved and XML signature references resolve.
+func vIDString(name string) string {
+	s := vString(name)
+	return fmt.Sprintf("_id%x", []byte(s))
+}
